@@ -6,6 +6,7 @@ pub mod c03;
 pub mod c04;
 pub mod c05;
 pub mod c06;
+pub mod c07;
 pub mod c08;
 pub mod c09;
 pub mod c10;
@@ -21,7 +22,10 @@ pub mod c24;
 pub mod c25;
 pub mod c26;
 pub mod c27;
+pub mod c28;
 pub mod c29;
+pub mod c30;
+pub mod c31;
 pub mod c32;
 pub mod c35;
 pub mod crash;
@@ -40,6 +44,7 @@ pub const REGISTRY: &[Entry] = &[
     Entry { id: "C04", level: "exploration", run: c04::run },
     Entry { id: "C05", level: "exploration", run: c05::run },
     Entry { id: "C06", level: "exploration", run: c06::run },
+    Entry { id: "C07", level: "exploration", run: c07::run },
     Entry { id: "C08", level: "fault_enumeration", run: c08::run },
     Entry { id: "C09", level: "exploration", run: c09::run },
     Entry { id: "C10", level: "exploration", run: c10::run },
@@ -55,7 +60,10 @@ pub const REGISTRY: &[Entry] = &[
     Entry { id: "C25", level: "exploration", run: c25::run },
     Entry { id: "C26", level: "exploration", run: c26::run },
     Entry { id: "C27", level: "exploration", run: c27::run },
+    Entry { id: "C28", level: "exploration", run: c28::run },
     Entry { id: "C29", level: "exploration", run: c29::run },
+    Entry { id: "C30", level: "exploration", run: c30::run },
+    Entry { id: "C31", level: "exploration", run: c31::run },
     Entry { id: "C32", level: "exploration", run: c32::run },
     Entry { id: "C35", level: "exploration", run: c35::run },
 ];
